@@ -25,7 +25,7 @@ Theorem C06_terminal_zero_step :
          (U : list RC) (psi : nat -> RC) (eps : nat -> R) (gamma u dt : R) (muB dAdt : nat -> R)
          (out : step_out OpsR) (f : nat),
     NoDup fixed -> In f fixed -> psi f = (0, 0) ->
-    step OpsR a n es fixed solve tlink U psi eps gamma u dt muB dAdt = Some out ->
+    step OpsR a n es fixed solve tlink None U psi eps gamma u dt muB dAdt = Some out ->
     so_psi _ out f = (0, 0).
 Proof. exact terminal_zero_step. Qed.
 Print Assumptions C06_terminal_zero_step.
@@ -46,3 +46,15 @@ Theorem C06_identity_row_does_not_hold_nonzero :
     site_update OpsR U v abs2 eps gamma u dt v = Some (x, p) /\ p <> v.
 Proof. exact pinned_nonzero_refuted. Qed.
 Print Assumptions C06_identity_row_does_not_hold_nonzero.
+
+(* a non-zero configured terminal value is re-imposed after every Euler update: held exactly *)
+Theorem C06_pinned_value_held :
+  forall (a : nat -> R) (n : nat) (es : list edgeR) (fixed : list nat)
+         (solve : (nat -> R) -> nat -> R) (tlink : nat -> RC) (v : RC)
+         (U : list RC) (psi : nat -> RC) (eps : nat -> R) (gamma u dt : R) (muB dAdt : nat -> R)
+         (out : step_out OpsR) (f : nat),
+    In f fixed ->
+    step OpsR a n es fixed solve tlink (Some v) U psi eps gamma u dt muB dAdt = Some out ->
+    so_psi _ out f = v.
+Proof. exact pinned_value_held. Qed.
+Print Assumptions C06_pinned_value_held.
